@@ -136,3 +136,17 @@ Theorem C04_requires_assert_cannot_fail : forall U P c evs,
   quiet_ok U P (estate0 c) nil nil evs = true -> req_true_ok nil evs = true ->
   assert_ok U P (estate0 c) nil nil evs = true.
 Proof. exact enc_assert_safe. Qed.
+
+(* ---- the unreachable!() in Solver::decide: in the model of decide
+   (Cdcl/Decide.v, compared with the implementation at every call) it is reached
+   only when a Requires clause of an installed solvable has all its candidates
+   false, i.e. when the assignment falsifies a clause of the database -- which a
+   completed propagation excludes ---- *)
+From Resolvo Require Import Cdcl.DecideProofs.
+
+Theorem C04_decide_unreachable_needs_falsified_clause : forall U act_ge pa db,
+  (forall c, In c db -> req_wf U c = true) ->
+  decide U act_ge db pa = None ->
+  exists c p r cands, In c db /\ ck c = KRequires p r cands /\ lit_istrue pa (p, true) = true /\
+                      Forall (cfalse pa) (concat cands).
+Proof. exact decide_panic. Qed.
